@@ -3,6 +3,7 @@ package props
 import (
 	"crypto/x509"
 	"encoding/json"
+	"encoding/pem"
 	"fmt"
 	"math/big"
 	mrand "math/rand"
@@ -135,6 +136,18 @@ func faults02() []fault02 {
 			leaf := world.Issue(world.LeafTemplate(world.Far, world.SgxExtension(a.P)), nil, world.NewKey())
 			chain(a, leaf, a.PKI.Inter, a.PKI.Root)
 			a.Q.SignQE(leaf.Key)
+		}},
+		// a certificate with the PCK name, issued by the genuine platform CA for the genuine key, that is not a PCK certificate:
+		// its SGX extension is missing / empty / not DER
+		{"role-pck-named-leaf-without-sgx-extension", "reject", func(a, b *world.World, r *mrand.Rand) {
+			chain(a, world.Issue(world.LeafTemplate(world.Far, nil), a.PKI.Inter, a.PKI.Leaf.Key), a.PKI.Inter, a.PKI.Root)
+		}},
+		{"role-pck-named-leaf-with-empty-sgx-extension", "reject", func(a, b *world.World, r *mrand.Rand) {
+			chain(a, world.Issue(world.LeafTemplate(world.Far, []byte{0x30, 0x00}), a.PKI.Inter, a.PKI.Leaf.Key), a.PKI.Inter, a.PKI.Root)
+		}},
+		{"role-pck-named-leaf-with-truncated-sgx-extension", "reject", func(a, b *world.World, r *mrand.Rand) {
+			e := world.SgxExtension(a.P)
+			chain(a, world.Issue(world.LeafTemplate(world.Far, e[:len(e)/2]), a.PKI.Inter, a.PKI.Leaf.Key), a.PKI.Inter, a.PKI.Root)
 		}},
 		{"role-wrong-leaf-common-name", "reject", func(a, b *world.World, r *mrand.Rand) {
 			t := world.LeafTemplate(world.Far, world.SgxExtension(a.P))
@@ -312,7 +325,7 @@ func c02(x *mon.Ctx) {
 			}
 		}
 		// placements: all in files (one per file), all in one file, all inline (one per entry), one inline entry, mixed
-		for _, place := range []string{"files", "one-file", "inline", "one-inline", "mixed", "file-with-comments"} {
+		for _, place := range []string{"files", "one-file", "inline", "one-inline", "mixed", "file-with-comments", "file-with-other-pem-blocks", "inline-with-other-pem-blocks", "file-other-pem-block-first"} {
 			if len(members) == 0 && place != "files" {
 				continue
 			}
@@ -339,6 +352,22 @@ func c02(x *mon.Ctx) {
 				files = []string{cat}
 			case "one-inline":
 				inline = []string{cat}
+			case "file-with-other-pem-blocks", "inline-with-other-pem-blocks", "file-other-pem-block-first":
+				// a bundle may carry PEM blocks that are not certificates (a CRL, a public key): they list nothing and hide nothing
+				crl := string(pem.EncodeToMemory(&pem.Block{Type: "X509 CRL", Bytes: pk[0].RootCRL}))
+				other := "-----BEGIN PUBLIC KEY-----\nMFkwEwYHKoZIzj0CAQYIKoZIzj0DAQcDQgAE\n-----END PUBLIC KEY-----\n"
+				b := ""
+				if place == "file-other-pem-block-first" {
+					b = crl
+				}
+				for n, k := range members {
+					b += string(pk[k].PKI.Root.PEM) + []string{crl, other}[n%2]
+				}
+				if place == "inline-with-other-pem-blocks" {
+					inline = []string{b}
+				} else {
+					files = []string{b}
+				}
 			case "file-with-comments":
 				files = []string{"# trusted roots\n" + strings.ReplaceAll(cat, "-----END CERTIFICATE-----\n", "-----END CERTIFICATE-----\nsome text in between\n")}
 			}
